@@ -9,6 +9,8 @@ import LLTD.Spec.Automata
 import LLTD.Spec.Table
 import LLTD.Spec.Event
 import LLTD.Spec.Tick
+import LLTD.Spec.Block
+import Driver.Block
 
 import Driver.Parse
 
@@ -95,6 +97,8 @@ def absorb (s : Seen) (out : List String) : Seen :=
 structure Step where
   op  : List String
   out : List String
+  live  : Nat := 0       -- the `end live= bytes=` line of the op
+  bytes : Nat := 0
 
 abbrev Verdict := Option String     -- none = ok
 
@@ -345,5 +349,120 @@ def checkC12 (steps : List Step) : Option (Nat × String) := Id.run do
       let e := evs[k - 1]!
       return some (k - 1, s!"periodic Hello rule broken: hellos at {e.hellos} (tick={e.isTick}, live incomplete session={e.incomplete}); all Hello times so far {(evs.take k).flatMap (·.hellos)}")
   return some (0, "periodic Hello rule broken")
+
+/-! ## Block side: per-interface traces of received frames -/
+
+structure BlkIf where
+  cfg : Cfg
+  img : List Nat
+
+/-- (op index, interface, observation) for every `rx`, in order -/
+def blockTrace (steps : List Step) : List (Nat × Nat × RxObs) := Id.run do
+  let mut ifs : List (Nat × BlkIf) := []
+  let mut glob : Glob := {}
+  let mut acc : Array (Nat × Nat × RxObs) := #[]
+  let mut idx := 0
+  for st in steps do
+    match st.op with
+    | "iface" :: i :: attrs =>
+      match parseDec i with
+      | some I =>
+        let r := attrs.foldl (fun (acc : Option (Cfg × Nat)) t => acc.bind (fun (c, b0) => (splitKV t).bind (fun (k, v) =>
+          if k == "buf0" then (parseDec v).map (fun n => (c, n)) else (setIfaceAttr c true k v).map (fun c' => (c', b0))))) (some ({ idx := I }, 0))
+        match r with
+        | some (c, b0) => ifs := upd ifs I { cfg := c, img := List.replicate c.mtu b0 }
+        | none => pure ()
+      | none => pure ()
+    | "set" :: i :: attrs =>
+      match parseDec i with
+      | some I =>
+        match ifs.lookup I with
+        | some rec =>
+          match attrs.foldl (fun acc t => acc.bind (fun c => (splitKV t).bind (fun (k, v) => setIfaceAttr c false k v))) (some rec.cfg) with
+          | some c => ifs := upd ifs I { rec with cfg := c }
+          | none => pure ()
+        | none => pure ()
+      | none => pure ()
+    | "glob" :: attrs =>
+      match attrs.foldl (fun acc t => acc.bind (fun g => (splitKV t).bind (fun (k, v) => setGlobAttr g k v))) (some glob) with
+      | some g => glob := g
+      | none => pure ()
+    | "rx" :: i :: hex :: rest =>
+      match parseDec i, parseHex hex with
+      | some I, some frame =>
+        match ifs.lookup I with
+        | some rec =>
+          let img := recvInto rec.img frame (rest == ["zero"])
+          ifs := upd ifs I { rec with img := img }
+          let seen := if frame.length ≥ 60 then frame else img.take 60     -- nothing shorter than 60 bytes exists on Ethernet
+          let fx : List FxObs := st.out.filterMap (fun l => match tokens l with
+            | ["sleep", n] => (parseDec n).map FxObs.sleep
+            | ["tx", _, h] => (parseHex h).map (FxObs.tx true)
+            | ["txfail", _, h] => (parseHex h).map (FxObs.tx false)
+            | ["tx", _] => some (FxObs.tx true [])
+            | _ => none)
+          acc := acc.push (idx, I, { cfg := rec.cfg, glob := glob, frame := seen, fx := fx, live := st.live, bytes := st.bytes })
+        | none => pure ()
+      | _, _ => pure ()
+    | _ => pure ()
+    idx := idx + 1
+  return acc.toList
+
+def ifaceIds (t : List (Nat × Nat × RxObs)) : List Nat := (t.map (·.2.1)).eraseDups
+
+def traceOf (t : List (Nat × Nat × RxObs)) (I : Nat) : List (Nat × RxObs) := (t.filter (·.2.1 == I)).map (fun x => (x.1, x.2.2))
+
+/-- first prefix of an interface's trace on which `pred` fails -/
+def firstBad (tr : List (Nat × RxObs)) (pred : List RxObs → Bool) : Option Nat := Id.run do
+  if pred (tr.map (·.2)) then return none
+  let mut k := 0
+  for _ in tr do
+    k := k + 1
+    if !pred ((tr.take k).map (·.2)) then return (tr[k - 1]?).map (·.1)
+  return some 0
+
+def ownOf (tr : List (Nat × RxObs)) : List Nat := match tr with | (_, r) :: _ => r.cfg.mac | [] => zeroMac
+
+def describeRx (steps : List Step) (i : Nat) : String :=
+  match steps[i]? with
+  | some st => s!"`{String.intercalate " " (st.op.take 2)} ..` caused {st.out}"
+  | none => ""
+
+def checkBlock (name : String) (pred : List Nat → List RxObs → Bool) (steps : List Step) : Option (Nat × String) := Id.run do
+  let t := blockTrace steps
+  for I in ifaceIds t do
+    let tr := traceOf t I
+    match firstBad tr (pred (ownOf tr)) with
+    | some i => return some (i, s!"{name} violated on interface {I}: {describeRx steps i}")
+    | none => pure ()
+  return none
+
+def checkC02 := checkBlock "C02 (well-formed, solicited, bounded transmits)" (fun _ t => holdsC02 t)
+def checkC03 := checkBlock "C03 (Hello answering an accepted Discover)" (fun _ t => holdsC03 t)
+def checkC04 := checkBlock "C04 (Hello properties = interface attributes)" (fun _ t => holdsC04 t)
+def checkC05 := checkBlock "C05 (single mapper arbitration)" holdsC05
+def checkC06 := checkBlock "C06 (Emit execution)" holdsC06
+def checkC07 := checkBlock "C07 (every observation reported once)" holdsC07
+def checkC08 := checkBlock "C08 (large property retrieval)" holdsC08
+
+/-- C19: after every frame the ledger holds exactly the retained state the specification predicts -/
+def checkC19 (steps : List Step) : Option (Nat × String) := Id.run do
+  let t := blockTrace steps
+  let ids := ifaceIds t
+  let mut sts : List (Nat × SpecSt) := []
+  for (i, I, r) in t do
+    let s := (sts.lookup I).getD {}
+    let s' := specStep r.cfg.mac r.glob s r.frame (reportedOf r.fx)
+    sts := upd sts I s'
+    let all := ids.filterMap (fun J => sts.lookup J)
+    let expL := expectedLive all
+    let expB := expectedBytes X.stateRecBytes X.nodeBytes all
+    let inDomain := all.all (fun s => !s.overflow)
+    let capOk := match X.seesCap with | some c => decide (r.live ≤ ids.length * (2 + c)) | none => false
+    if !capOk then
+      return some (i, s!"C19: {r.live} live allocations after a frame exceeds the fixed bound")
+    if inDomain && (r.live != expL || r.bytes != expB) then
+      return some (i, s!"C19: ledger after the frame shows live={r.live} bytes={r.bytes}, retained state accounts for live={expL} bytes={expB}")
+  return none
 
 end Driver.Check
